@@ -258,6 +258,28 @@ theorem client_auth (C : Crypto) (L : Loc) (f : Bytes) (ops : List Op)
   obtain ⟨hdig, hpk⟩ := hcl.certs _ hcert
   exact ⟨leaf, sr, body, pk, sr', ems, tr, k, tr', hcert, hdig, hpk, hske, hsig, hdec, hkev, hder, hfin, hck⟩
 
+/-- The certificate the checks are about is the *first* one of the Certificate message (the leaf):
+`handle_certificate` records a checked certificate only for the head of the decoded list, and it is
+that same `leaf` whose key `client_auth` says verified the ServerKeyExchange signature.  (A message
+`[attacker certificate, pinned certificate]` therefore fails the digest test: the pinned one is not the
+leaf.) -/
+theorem certificate_checked_is_first (C : Crypto) (e : Ep) (body : Bytes) (leaf : Bytes)
+    (h : Ev.cert leaf ∈ (handleCertificate C e body).ep.evs) :
+    Ev.cert leaf ∈ e.evs ∨ ∃ rest, C.certDecode body = some (leaf :: rest) := by
+  unfold handleCertificate at h
+  split at h
+  · exact Or.inl h
+  · exact Or.inl (by simpa [failed] using h)
+  · rename_i l rest hdec
+    split at h
+    · exact Or.inl (by simpa [failed] using h)
+    · split at h
+      · exact Or.inl (by simpa [failed] using h)
+      · simp only [ok, List.mem_cons, Ev.cert.injEq] at h
+        rcases h with rfl | h
+        · exact Or.inr ⟨rest, hdec⟩
+        · exact Or.inl h
+
 /-- Consequence in the form of the property text: a client whose history contains no certificate
 with the expected digest never reaches Connected (so it is Handshaking, Failed or Closed). -/
 theorem client_not_connected_without_matching_certificate (C : Crypto) (L : Loc) (f : Bytes) (ops : List Op)
